@@ -106,7 +106,16 @@ class FunctionFacts:
             else:
                 self.env.setdefault(target.id, set()).update(paths)
         elif isinstance(target, (ast.Tuple, ast.List)):
-            elem = {p + ("[]",) if not is_fresh(p) else p for p in paths}
+            cls = getattr(self.fn, "_gs_class", None)
+            in_pose = bool(cls) and self.pkg.is_subclass(cls, "BasePose")
+
+            def elem_of(p):
+                if is_fresh(p):
+                    return p
+                if in_pose and p[0] in self.params and all(s_ == "[]" for s_ in p[1:]):
+                    return FRESH      # unpacking a (slice of a) 1-D pose array yields immutable scalars
+                return p + ("[]",)
+            elem = {elem_of(p) for p in paths}
             for t in target.elts:
                 self._bind(t.value if isinstance(t, ast.Starred) else t, elem)
 
